@@ -178,7 +178,8 @@ COMPARABLE = ('num', 'len', 'match', 'nomatch', 'prefix-match', 'suffix-match', 
 
 def verdict_pairs(t, fid, pos, cases, res, casebase):
     """(c) lxml vs soft for one (type, position)"""
-    upos = {'array': 'array', 'arg': 'arg', 'field': 'field', 'xmlattr': 'xmlattr', 'seq': 'field', 'seq-arg': 'arg'}[pos]
+    upos = {'array': 'array', 'arg': 'arg', 'field': 'field', 'xmlattr': 'xmlattr', 'seq': 'field', 'seq-arg': 'arg', 'inherited': 'inherited',
+            'seq-inherited': 'inherited'}[pos]
     program = universe.program_for(t, upos)
     if program is None:
         return
@@ -259,7 +260,7 @@ def run_shard(shard, only=None):
         fid, t, vals = c05.facets(tier)[shard['i']]
         if 'part' in shard:
             vals = vals[shard['part']::shard['parts']]
-        for pos in ('arg', 'field', 'array', 'xmlattr'):
+        for pos in ('arg', 'field', 'array', 'xmlattr', 'inherited'):
             if pos == 'array' and t[0] == 'm':
                 continue
             cases = []
@@ -282,7 +283,7 @@ def run_shard(shard, only=None):
     else:
         fid, t, mn, mx = c05.occurrence_types()[shard['j']]
         top = 5 if mx == 'unbounded' else mx + 2
-        for pos in ('seq-arg', 'seq'):
+        for pos in ('seq-arg', 'seq', 'seq-inherited'):
             cases = []
             for n in range(0, top + 1):
                 vs = list(range(1, n + 1))
